@@ -3,7 +3,7 @@
 CONFINE, WHOWRITES, accumulator EFFECT-compare, MODE agreement, task/executor
 COUPLING and dispatch REACHDEF on GeneralForceSubsystem.cpp (DESIGN 3, C17)."""
 from ..facts import extract, units_matching, Program, AnalysisBroken, sx_find, sx_str
-from ..match import (ev_write, is_call, call_args, call_obj, field_of, var_of, guard_blocks, lvalue_root, branch_edges)
+from ..match import (effective_calls, value_sets, known_edges, only_via, ev_write, is_call, call_args, call_obj, field_of, var_of, guard_blocks, lvalue_root, branch_edges)
 from .c18 import _in_loop, _is_lit, _is_var
 
 NS = "(anonymous namespace)::"
@@ -59,19 +59,22 @@ def _shared_deref(x, cls):
     return None
 
 
+_MODE_VS = {}
+
+
 def _case_of(fn, b):
-    """switch case label governing block b: the nearest case-labelled block that dominates b"""
-    dom = fn.dominators().get(b, set())
-    best = None
-    for d in dom:
-        c = fn.blocks[d].get("case")
-        if c is not None:
-            if best is None or best[0] in fn.dominators().get(d, ()):
-                best = (d, c)
-    if best is None:
-        return None
-    c = best[1]
-    return c[1].split("::")[-1] if isinstance(c, list) and c[0] == "enum" else str(c)
+    """the mode under which block b executes: the single possible value of the task's m_mode there (value-set analysis, so a switch,
+    an if / else-if chain or early returns over the mode are read alike); None when several modes are possible"""
+    key = id(fn)
+    if key not in _MODE_VS:
+        cls = fn.cls
+        en = None
+        _MODE_VS[key] = value_sets(fn, lambda x: isinstance(x, list) and bool(x) and x[0] == "mem" and x[2] == cls + "::m_mode", MODES)
+    vs = _MODE_VS[key][b]
+    return next(iter(vs)) if len(vs) == 1 else None
+
+
+MODES = {"All", "CachedAndNonCached", "NonCached"}
 
 
 def confine(chk, P, tls):
@@ -100,12 +103,17 @@ def confine(chk, P, tls):
     chk.floor("CONFINE", 16)
 
 
+def _dual(cond_pred):
+    """the negated form of an (in)equality guard: `a != b` states the negation of what `a == b` states"""
+    def neg(c):
+        return isinstance(c, list) and len(c) == 4 and c[0] in ("op", "opc") and c[1] == "!=" and cond_pred([c[0], "==", c[2], c[3]])
+    return neg
+
+
 def _true_region(fn, cond_pred):
-    res = set()
-    for g in guard_blocks(fn, cond_pred, 0):
-        dom = fn.dominators()
-        res |= {b for b in dom if g in dom[b]}
-    return res
+    """blocks that execute only when the guard holds -- `if (g) A`, `if (!g) B else A`, `if (!g) return; A` alike"""
+    edges = known_edges(fn, cond_pred, _dual(cond_pred))
+    return {b for b in fn.blocks if only_via(fn, b, edges)}
 
 
 def _slot(fn, b, sites):
@@ -234,22 +242,21 @@ def accumulators(chk, P, tls):
                 chk.judge(not any(is_cache) and b in pos_neg, "ACCUM", inst + ":mode", site, "mode NonCached evaluates only forces with !dependsOnlyOnPositions() into the main arrays")
             else:
                 chk.violation("ACCUM", inst + ":mode", site, "calcForce outside a known mode case (%s)" % case)
-        # the mode switch is exhaustive
-        sw = [blk["term"] for blk in ex.blocks.values() if blk.get("term") and blk["term"]["k"] == "switch"]
+        # every Mode is handled: each enumerator is the mode of at least one calcForce site
         en = P.enums.get(cls + "::Mode")
-        chk.require(en is not None and len(sw) == 1, "mode switch / enum not found in " + cls)
-        if en and sw:
-            have = sorted(c[1] for c in sw[0]["cases"] if isinstance(c, list) and c[0] == "enum")
-            chk.judge(have == sorted(n for n, v in en["enumerators"]), "ACCUM", cls + "::execute:switch-exhaustive", ex.loc, "every Mode has a case")
+        chk.require(en is not None, "enum Mode not found in " + cls)
+        if en:
+            handled = sorted({_case_of(ex, b) for b, _, _ in ex.calls(CALC)} - {None})
+            chk.judge(handled == sorted(n.split("::")[-1] for n, v in en["enumerators"]), "ACCUM", cls + "::execute:switch-exhaustive", ex.loc,
+                      "every Mode evaluates forces somewhere in execute(): %s" % handled)
     chk.floor("ACCUM", 60)
 
 
 def _false_region(fn, cond_pred):
-    res = set()
-    for g in guard_blocks(fn, cond_pred, 1):
-        dom = fn.dominators()
-        res |= {b for b in dom if g in dom[b]}
-    return res
+    """blocks that execute only when the guard is false"""
+    edges = known_edges(fn, _dual(cond_pred), cond_pred)
+    # (a plain boolean guard has no `!=` dual: its false edge is found through the pos/neg swap above)
+    return {b for b in fn.blocks if only_via(fn, b, edges)}
 
 
 def coupling(chk, P):
@@ -321,7 +328,8 @@ def dispatch(chk, P):
              "enabledParallelForces.size() + NumNonParallelThreads, immediately after the initializeXxx call that received the same "
              "enabledParallelForces/enabledNonParallelForces arrays; in execute(), index 0 is the non-parallel set and index k is enabledParallelForces[k-1]")
     rd = P.fn(REP + "::realizeSubsystemDynamicsImpl")
-    sites = [(b, i, e) for b, i, e in rd.calls("SimTK::ParallelExecutor::execute")]
+    # (a dispatch made through a same-class helper counts as a site, read with the helper's parameters replaced by the site's arguments)
+    sites = [(b, i, ee) for b, i, _, ee in effective_calls(P, rd, "SimTK::ParallelExecutor::execute")]
     chk.judge(len(sites) == 3, "REACHDEF", "dispatch-sites=3", rd.loc, "three dispatch sites (All, CachedAndNonCached, NonCached), found %d" % len(sites))
     inits = {"initializeAll": None, "initializeCachedAndNonCached": None, "initializeNonCached": None}
     for b, i, e in sites:
